@@ -212,7 +212,7 @@ int main(int argc, char **argv) {
 		pthread_barrier_destroy(&bar);
 		// wait until every item ran and every lane is idle: unlocked, not enqueued, empty (plain reads: not recorded)
 		int idle = 0;
-		for (int w = 0; w < 200000 && !idle; w++) {
+		for (int w = 0; w < 120000 && !idle; w++) {
 			idle = atomic_load(&ran) == atomic_load(&nitems_total);
 			for (int l = 0; l < nlanes && idle; l++) {
 				dispatch_lane_t dl = upcast(lane_q[l])._dl; uint64_t st = *(volatile uint64_t *)&dl->dq_state;
@@ -232,6 +232,7 @@ int main(int argc, char **argv) {
 		printf("R %d %d %d %d %d %d %d %d %llu %llu\n", i, nlanes, n, atomic_load(&nitems_total), atomic_load(&ran),
 				atomic_load(&overlap_err), atomic_load(&order_err), idle, seq0, seq1);
 		// the queues are kept alive until the process exits: no address of a tracked object is reused
+		if (!idle) break;    // stuck or stranded: what follows would only wait for the watchdog again
 	}
 	atomic_store(&dv_enabled, 0);
 	dv_dump(stdout);
